@@ -89,6 +89,7 @@ PATH_KINDS = (
     + [dict(kind='custom', drift=0.4)]
     + [dict(kind=k, drift=0.7) for k in ('array', 'list')]
     + [dict(kind='array', drift=0.7, ints=True), dict(kind='list', drift=0.7, ints=True)]
+    + [dict(kind='array', drift=1.3, closed=True)]
     # whole-Hz paths held as UNSIGNED integers, drifting down as well as up (differences of unsigned values wrap)
     + [dict(kind='array', drift=-2.7, ints=True, dtype='uint64'), dict(kind='array', drift=2.7, ints=True, dtype='uint64')]
     + [dict(kind='float', drift=0.0), dict(kind='int', drift=0.0)]
@@ -235,6 +236,10 @@ def concretise(case, fs, ts):
     elif k in ('array', 'list'):
         jit = _rng(seed, 11).uniform(-0.4, 0.4, 16)
         vals = [float(f0 + d * df * i + jit[i] * df) for i in range(rows + p.get('extra', 0))]
+        if p.get('closed'):
+            # a path that goes up and comes back: its last value EQUALS its first one (no net drift, yet every row drifts)
+            last = len(vals) - 1
+            vals = [float(f0 + d * df * min(i, last - i) + (jit[i] * df if 0 < i < last else 0.0)) for i in range(last + 1)]
         if p.get('ints'):
             ps = dict(kind=k, values=[int(round(v)) for v in vals], dtype=p.get('dtype', 'int64'))
         else:
